@@ -964,6 +964,7 @@ class SamplingMethod(DirectMethod):
                                  v_control=v_control,
                                  v_control_plus=v_control_plus,
                                  v_states=v_states,
+                                 signals=(self.signals, self.get_signals_at(stage, k)),
                                  t=t,
                                  DT=DT,
                                  DT_control=DT_control)
